@@ -23,6 +23,12 @@ code->spec : TLC (MPSLifeTrace) recomputes the exact cost from the logged archit
              coefficients encode (arg-max of theta_alpha, logged with a one-hot bit), requires that assignment to equal
              summary()'s whenever the history ends "fresh" (MPSLife!ThetaState), and compares; order independence;
              the probe records are compared with the effective feature counts.
+             Histories also contain: mode switches without a forward pass, forward passes in the CURRENT mode with autograd
+             enabled or under no_grad (the claim does not depend on the autograd mode), coefficient writes by
+             load_state_dict / in-place copy_ / .data assignment while staying in the mode, SGD steps on the weights only
+             (theta stays fresh) / on all parameters (theta stale).  30% of the models are traced with an input_example of
+             batch 2..5: the exact cost does not depend on it (InvBatchIndependent: no cost function reads out_shape[0]).
+             Conv options as in C02 (stride changes the output shape the per-invocation metrics are charged for).
 Claims     : eval mode / hard_softmax training (plain sampler): cost = exact cost of summary()'s assignment.
              hard Gumbel training: theta is a one-hot of a RANDOM candidate: cost = exact cost of the sampled assignment
              (read from theta_alpha); equality with summary() is NOT claimed.  Coefficients replaced without a forward
@@ -67,11 +73,11 @@ def run(tier: str, seed: int, replay=None) -> int:
     q = tier == "quick"
     plan = {
         "rule": RULE, "assumptions": ASSUMPTIONS,
-        "design": ([("MPSLifeMC_arch_quick", 210, 3, "arch"), ("MPSLifeMC_tuples_quick", 150, 1, "tuples"),
-                    ("MPSLifeMC_ne16_quick", 140, 2, "ne16"), ("MPSLifeMC_pc_quick", 400, 50, "perchannel"),
+        "design": ([("MPSLifeMC_arch_quick", 180, 3, "arch"), ("MPSLifeMC_tuples_quick", 120, 1, "tuples"),
+                    ("MPSLifeMC_ne16_quick", 140, 2, "ne16"), ("MPSLifeMC_pc_quick", 320, 40, "perchannel"),
                     ("MPSLifeMC_d1_quick", 120, 3, "arch1d"), ("MPSLifeMC_d1pc_quick", 160, 40, "perchannel1d"),
-                    ("MPSLifeMC_reuse_quick", 105, 3, "reuse"), ("MPSLifeMC_hist_quick", 300, 50, "histories"),
-                    ("MPSLifeMC_modes_quick", 250, 60, "modes"), ("MPSLifeMC_export_quick", 150, 40, "weightsteps"),
+                    ("MPSLifeMC_reuse_quick", 105, 3, "reuse"), ("MPSLifeMC_hist_quick", 240, 40, "histories"),
+                    ("MPSLifeMC_modes_quick", 160, 40, "modes"), ("MPSLifeMC_export_quick", 90, 30, "weightsteps"),
                     ("MPSLifeMC_opts_quick", 90, 3, "convopts")] if q else
                    [("MPSLifeMC_arch_quick", 0, 0, "arch"), ("MPSLifeMC_arch_thorough", 1500, 3, "arch4"),
                     ("MPSLifeMC_tuples_thorough", 2000, 2, "tuples"), ("MPSLifeMC_ne16_quick", 2000, 2, "ne16"),
@@ -83,7 +89,7 @@ def run(tier: str, seed: int, replay=None) -> int:
                     ("MPSLifeMC_modes_thorough", 2500, 150, "modes"), ("MPSLifeMC_export_thorough", 1500, 100, "weightsteps"),
                     ("MPSLifeMC_opts_quick", 0, 0, "convopts"), ("MPSLifeMC_opts1d_quick", 0, 0, "convopts1d")]),
         "sanity": ["MPSLifeMC_nokf05", "MPSLifeMC_pinned", "MPSLifeMC_cachefwd"],
-        "n_random": 70 if q else 700, "random_sels": 2 if q else 3, "max_nodes": 9 if q else 12, "p_pc": 0.5,
+        "n_random": 60 if q else 700, "random_sels": 2 if q else 3, "max_nodes": 9 if q else 12, "p_pc": 0.5,
         "procs": 8, "tlc_workers": 8,
     }
     return mps_gen.run_check("C05", tier, seed, replay, plan)
